@@ -212,6 +212,10 @@ def install_ns(mon):
             lp = float(np.atleast_1d(model.log_prior(row))[0])
         return ll, lp
 
+    def param_view(a):
+        return np.stack([np.asarray(a[n], dtype=float) for n in model.names],
+                        axis=1)
+
     # ---- consume_sample
     def before_consume(self):
         mon.in_consume += 1
@@ -312,6 +316,16 @@ def install_ns(mon):
               f"{len(self.insertion_indices)} vs it={self.iteration}")
         pos = newb.index(new_b)
         new = live[pos: pos + 1]
+        # a replacement is a fresh draw: it must not be a copy (identical in
+        # every parameter) of a point that is already in the live set - that
+        # point would be discarded and recorded twice
+        pv = param_view(live)
+        same = np.all(pv == pv[pos], axis=1)
+        same[pos] = False
+        if same.any():
+            V("live-set-duplicate-point",
+              f"it={self.iteration}: the new point equals live point "
+              f"{int(np.argmax(same))} in every parameter")
         if not np.isfinite(new["logP"][0]):
             V("new-point-logP-not-finite", f"it={self.iteration}: "
               f"{new['logP'][0]!r}")
@@ -358,6 +372,12 @@ def install_ns(mon):
             V("initial-live-set-out-of-bounds", "")
         if not np.all(live["it"] == 0):
             V("initial-live-set-it", "it != 0")
+        # independent prior draws: no point occurs twice
+        pv = param_view(live)
+        if len({r.tobytes() for r in pv}) != len(pv):
+            V("initial-live-set-duplicate-point",
+              f"{len(pv) - len({r.tobytes() for r in pv})} initial live "
+              f"points are copies of another one")
         with model.quiet():
             ll = model.ref_log_likelihood(live)
             lp = model.ref_log_prior(live)
@@ -698,9 +718,15 @@ def check_ins_store(mon, sampler, store, name, where):
           f"(it={its[i]}, x={x[i].tolist()}, in clamp region: "
           f"{bool(clamped[i])}, {int(badq.sum())} rows)")
     lu = s["logU"]
-    lu_ref = np.where(np.any((x < 0) | (x >= 1), axis=1), -np.inf, 0.0)
+    if hasattr(model, "ref_log_prior_unit"):
+        # model with its own (non-uniform) prior on the unit hypercube
+        lu_ref = model.ref_log_prior_unit(s)
+    else:
+        lu_ref = np.where(np.any((x < 0) | (x >= 1), axis=1), -np.inf, 0.0)
     if np.any(lu != lu_ref):
-        V(f"logU!=unit-hypercube-prior:{key}", "")
+        i = int(np.argmax(lu != lu_ref))
+        V(f"logU!=unit-hypercube-prior:{key}",
+          f"row {i}: stored {lu[i]!r} model {lu_ref[i]!r}")
     with np.errstate(invalid="ignore"):
         w_ref = lu - s["logQ"]
         badw = ~((s["logW"] == w_ref) | (np.abs(s["logW"] - w_ref) <= 1e-10))
@@ -845,6 +871,11 @@ def install_ns_stop(mon):
         rec["tolerance"] = float(tol)
         rec["max_iteration"] = None if not np.isfinite(self.max_iteration) \
             else int(self.max_iteration)
+        if st.get("start_met") and conds:
+            V("continued-although-condition<=tolerance@resume",
+              f"resumed at iteration {st.get('start_iteration')} with "
+              f"condition {st.get('start_condition')!r} <= {tol!r}, but "
+              f"{len(conds)} further iteration(s) were performed")
         if not conds:
             return
         for it, c in conds[:-1]:
@@ -882,6 +913,15 @@ def install_ns_stop(mon):
         st["start_iteration"] = int(self.iteration)
         st["start_capped"] = bool(
             self.iteration >= self.max_iteration and not self.finalised)
+        # a state restored from the checkpoint of the stopping iteration
+        # (process died before the run was finalised): the rule is already
+        # met, so the loop must not iterate again
+        st["start_condition"] = float(self.condition)
+        st["start_met"] = bool(
+            self.iteration > 0 and not self.finalised
+            and self.condition <= self.tolerance)
+        if st["start_met"]:
+            mon.classes.add("resumed-with-rule-met")
 
     wrap(NestedSampler, "nested_sampling_loop", before_loop, after_loop)
 
@@ -957,6 +997,11 @@ def install_ins_stop(mon):
     def before_loop(self):
         st["start_iteration"] = int(self.iteration)
         st["was_finalised"] = bool(self.finalised)
+        try:
+            st["start_vals"] = {k: float(getattr(self, k)) for k in
+                                self.stopping_criterion_aliases}
+        except Exception:  # attribute missing before initialisation
+            st["start_vals"] = None
 
     def after_loop(self, _t, _r):
         V = mon.violation
@@ -1018,6 +1063,30 @@ def install_ins_stop(mon):
             return any(flags) if any_ else all(flags)
 
         mn = self.min_iteration
+        # a state restored from the checkpoint of the stopping iteration (the
+        # process died before the run was finalised): the configured rule is
+        # already met at or beyond the minimum (under both ways of counting),
+        # so no further iteration may be performed
+        sv = st.get("start_vals")
+        met_at_start = False
+        if usable and start >= 1 and sv is not None:
+            c0 = [sv[n] for n in u_names]
+            met_at_start = reached(c0) and start >= mn
+            if reached(c0) and (start - 1) >= mn:
+                mon.classes.add("resumed-with-rule-met")
+                if K > start:
+                    V("continued-although-criteria-met@resume",
+                      f"resumed after {start} iterations with the configured "
+                      f"criteria met ({list(zip(u_names, c0))} vs {tol}), "
+                      f"but ran on to {K}")
+        if K == start and start >= 1:
+            # no iteration in this process: only legitimate when the restored
+            # state already met the rule or sat at the cap
+            if not met_at_start and not K >= self.max_iteration and usable:
+                V("stopped-although-criteria-not-met@resume",
+                  f"resumed after {start} iterations and stopped at once; "
+                  f"restored criteria {sv} vs {list(zip(u_names, tol))}")
+
         # completed-iteration count j (1-based) after evaluating crit[j-1-start]
         def first_stop(offset):
             for idx, c in enumerate(crit):
@@ -1038,7 +1107,9 @@ def install_ins_stop(mon):
                   f"criteria met after {first_stop(0)} iterations, ran {K}")
         else:
             mon.classes.add("stopped-by-tolerance")
-            if K not in allowed:
+            if K == start and start >= 1:
+                pass  # judged above (no iteration in this process)
+            elif K not in allowed:
                 V("stop-iteration!=first-iteration-meeting-criteria",
                   f"stopped after {K}, criteria first met after "
                   f"{sorted(a for a in allowed if a is not None)} "
@@ -1549,9 +1620,24 @@ def install_kill_event(mon, spec):
         if ev == "level" and st["level"] == k:
             arm()
 
+    def before_finalise(self, *a, **kw):
+        # the window between the last checkpoint written by the sampling loop
+        # and the checkpoint written once the run has been finalised
+        st["finalise"] = st.get("finalise", 0) + 1
+        if ev == "finalise" and st["finalise"] == k:
+            mon.flags["kill_event_armed"] = True
+            mon.flush()
+            os._exit(9)
+
     wrap(FlowProposal, "populate", before_populate, None)
     wrap(FlowProposal, "train", before_train, None)
     wrap(ImportanceFlowProposal, "draw", before_ins_draw, None)
+    if ev == "finalise":
+        from nessai.samplers.nestedsampler import NestedSampler
+        from nessai.samplers.importancesampler import ImportanceNestedSampler
+
+        wrap(NestedSampler, "finalise", before_finalise, None)
+        wrap(ImportanceNestedSampler, "finalise", before_finalise, None)
 
 
 # --------------------------------------------------------------------------
